@@ -107,6 +107,7 @@ type c01Obs struct {
 	// after the handler started; the checker orders them against the 5 s literal of Generated.v
 	TimedAt     int // -1: not a timed case
 	EventsAfter []string
+	Inconclusive bool  // the schedule could not be realised (stalled runner): the case is dropped, not judged
 	Mode        int    // 0: everything observed; 1: end-to-end (transactions and reply frame only)
 	Contract    []byte `json:",omitempty"` // end-to-end: the configured contract
 	Note        string `json:",omitempty"`
@@ -785,33 +786,47 @@ func c01Run(t testing.TB, in c01In, slow int) c01Obs {
 	switch in.Engine {
 	case "true-late", "true-silent", "true-early":
 		ev(arrive(1))
-		t0 := time.Now()
+		t0 := time.Now() // before the handler starts: a LOWER bound of the start of its 5 s context
 		startHandler(1, 0)
-		if takeOne() {
+		taken := takeOne()
+		tTaken := time.Now() // the bid reached the engine after WithTimeout: an UPPER bound of that start
+		if taken {
 			ev(coqApp("EngineTake", "1%N"))
+		} else {
+			obs.Inconclusive = true // the hand-off itself did not happen in time: nothing to judge
 		}
 		at := map[string]int{"true-late": 5500, "true-early": 2000, "true-silent": 1000000000}[in.Engine]
 		obs.TimedAt = at
 		evSink = &obs.EventsAfter
+		// late: 5.5 s after the upper bound (the handler's deadline has certainly passed by 0.5 s);
+		// early: 2 s after the lower bound (certainly inside the 5 s, unless the runner stalled: see below)
+		feedAt := tTaken.Add(time.Duration(at) * time.Millisecond)
+		if in.Engine == "true-early" {
+			feedAt = t0.Add(time.Duration(at) * time.Millisecond)
+		}
 		if in.Engine != "true-silent" {
 			if _, finished := rets[1]; !finished {
 				// keep collecting the handler's return while sleeping
 				select {
 				case r := <-done:
 					rets[r.h] = r.code
-					time.Sleep(time.Until(t0.Add(time.Duration(at) * time.Millisecond)))
-				case <-time.After(time.Until(t0.Add(time.Duration(at) * time.Millisecond))):
+					time.Sleep(time.Until(feedAt))
+				case <-time.After(time.Until(feedAt)):
 				}
+			}
+			if in.Engine == "true-early" && time.Since(t0) > 4*time.Second {
+				obs.Inconclusive = true // stalled runner: the decision can no longer be placed before the deadline
 			}
 			feed(digest, 1)
 			progress(1)
 		}
-		// the handler must have returned by its own deadline (5 s) plus a margin
+		// the handler must have returned by its own deadline (5 s after its start, at the latest 5 s after
+		// tTaken) plus a margin
 		if _, finished := rets[1]; !finished {
 			select {
 			case r := <-done:
 				rets[r.h] = r.code
-			case <-time.After(time.Until(t0.Add(7500 * time.Millisecond))):
+			case <-time.After(time.Until(tTaken.Add(7500 * time.Millisecond))):
 				rets[1] = 97 // still running 2.5 s after the deadline
 				outerCancel()
 				select {
@@ -1229,8 +1244,18 @@ func c01Main(t *testing.T, classes []string, reps int, timed int, e2e int, c07 b
 	wg.Wait()
 	emu.Lock()
 	defer emu.Unlock()
+	inconclusive := 0
+	defer func() {
+		if inconclusive > 0 {
+			t.Logf("verif: %d case(s) inconclusive (schedule not realisable on this run), dropped", inconclusive)
+		}
+	}()
 	for i, j := range jobs {
 		if skipped[i] {
+			continue
+		}
+		if results[i].Inconclusive {
+			inconclusive++
 			continue
 		}
 		obs := results[i]
